@@ -67,4 +67,19 @@ def FsTree.wf : FsTree → Bool
   | .link n _ r => !n.isEmpty && !n.contains '/' && !r.names.contains n && r.wf
   | .dir n ch r => !n.isEmpty && !n.contains '/' && !r.names.contains n && ch.wf && r.wf
 
+/-! ### the guard against removing through a link -/
+
+/-- `Fork.vdrAcrossSymlink`: one of the directories the code lstats on the way to the
+fork's files (`chain`: the node's directory and those of the pipelines above it, the fork
+directory, every job's directory, files and temp directory) is a symbolic link -/
+def refusedBy (fs : List FsEnt) (chain : List Path) : Bool :=
+  fs.any fun e => e.link.isSome && chain.contains e.path
+
+/-- a step of a fork under the guard: the passes that remove something return at once
+when the fork is refused (`partialVdrKill`, `doChunks`) -/
+def stepG (refused : Bool) (c : Cfg) (s : St) (e : Ev) : St :=
+  if refused && (match e with | .early _ => true | .kill => true | _ => false) then s else step c s e
+
+def runG (refused : Bool) (c : Cfg) (s : St) (evs : List Ev) : St := evs.foldl (stepG refused c) s
+
 end Martian.Vdr
